@@ -96,7 +96,8 @@ def run(prop, tier, seed, replay, UNITS, build_unit, run_verus, scan_assumptions
         if gen is None:
             continue
         for ob in obligations_for(prop, gen):
-            obligations.append({'unit': u, 'id': ob[0], 'kind': ob[1]})
+            if not any(o['id'] == ob[0] for o in obligations):   # shared functions appear in several units
+                obligations.append({'unit': u, 'id': ob[0], 'kind': ob[1]})
         for f in gen['fns']:
             if prop in f['tags'] or any(prop in (c['tags'] or []) for c in f['clauses']):
                 st = None
